@@ -5,7 +5,7 @@ namespace AuthModel
 namespace Tls
 
 /-- TRUST DECISION for settings not yet in the pool -/
-theorem load_fresh (o : Oracle) (st : State) (s : Settings) (hnew : lookupPool st.pool s = none) :
+theorem load_fresh (o : Oracle) (st : State) (s : Settings) (hnew : lookupPool st.pool (keyOf o s) = none) :
     (load o st s).2 =
       if s.caInline = [] ∧ s.caFile = [] ∧ s.skip = .unset then .noConfig
       else if s.caInline ≠ [] then (if o.pemOk s.caInline then .cfg { insecure := false, extra := some s.caInline } else .error)
@@ -25,6 +25,7 @@ theorem load_fresh (o : Oracle) (st : State) (s : Settings) (hnew : lookupPool s
       · simp [h2, load.finish]
       · simp only [h2, ne_eq, not_false_eq_true, if_true]
         unfold watchFile
+        simp only [show (keyOf o s).caFile = s.caFile from rfl, show (keyOf o s).interval = s.interval from rfl]
         cases hf : st.files s.caFile with
         | none => simp
         | some data =>
@@ -36,7 +37,7 @@ theorem load_fresh (o : Oracle) (st : State) (s : Settings) (hnew : lookupPool s
       by_cases hp : o.pemOk s.caInline = true <;> simp [h1, hp]
 
 /-- a CA (inline or file) wins over skip-verify: verification is never switched off when a CA is given -/
-theorem ca_wins_over_skip (o : Oracle) (st : State) (s : Settings) (t : Trust) (hnew : lookupPool st.pool s = none)
+theorem ca_wins_over_skip (o : Oracle) (st : State) (s : Settings) (t : Trust) (hnew : lookupPool st.pool (keyOf o s) = none)
     (hca : s.caInline ≠ [] ∨ s.caFile ≠ []) (h : (load o st s).2 = .cfg t) : t.insecure = false := by
   rw [load_fresh o st s hnew] at h
   have h0 : ¬(s.caInline = [] ∧ s.caFile = [] ∧ s.skip = .unset) := by
@@ -55,7 +56,7 @@ theorem ca_wins_over_skip (o : Oracle) (st : State) (s : Settings) (t : Trust) (
     subst h; rfl
 
 /-- verification is skipped only when explicitly requested and no CA is given -/
-theorem insecure_only_if_requested (o : Oracle) (st : State) (s : Settings) (t : Trust) (hnew : lookupPool st.pool s = none)
+theorem insecure_only_if_requested (o : Oracle) (st : State) (s : Settings) (t : Trust) (hnew : lookupPool st.pool (keyOf o s) = none)
     (h : (load o st s).2 = .cfg t) (hi : t.insecure = true) :
     s.caInline = [] ∧ s.caFile = [] ∧ boolStr o s.skip = true := by
   by_cases hca : s.caInline ≠ [] ∨ s.caFile ≠ []
@@ -78,13 +79,13 @@ theorem insecure_only_if_requested (o : Oracle) (st : State) (s : Settings) (t :
 
 /-- IDENTICAL SETTINGS SHARE ONE CONFIGURATION: once an entry exists, loading the same settings returns it and
     changes nothing (no second entry, no second watcher) -/
-theorem pool_shares (o : Oracle) (st : State) (s : Settings) (t : Trust) (h : lookupPool st.pool s = some t)
+theorem pool_shares (o : Oracle) (st : State) (s : Settings) (t : Trust) (h : lookupPool st.pool (keyOf o s) = some t)
     (hne : ¬(s.caInline = [] ∧ s.caFile = [] ∧ s.skip = .unset)) :
     load o st s = (st, .cfg t) := by
   unfold load; simp [hne, h]
 
 /-- A SUPERSEDED WATCHER STOPS: after `WatchFile` for (settings, file) every earlier watcher with that id is dead -/
-theorem superseded_stops (st : State) (s : Settings) (w : Watcher) (hw : w ∈ st.watchers) (hid : w.id = (s, s.caFile)) :
+theorem superseded_stops (st : State) (s : Key) (w : Watcher) (hw : w ∈ st.watchers) (hid : w.id = (s, s.caFile)) :
     ∃ w' ∈ (watchFile st s).1.watchers, w'.id = w.id ∧ w'.data = w.data ∧ w'.alive = false := by
   have hkill : ({ w with alive := false } : Watcher) ∈ st.watchers.map (fun w => if w.id = (s, s.caFile) then { w with alive := false } else w) := by
     apply List.mem_map.mpr
@@ -99,7 +100,7 @@ theorem superseded_stops (st : State) (s : Settings) (w : Watcher) (hw : w ∈ s
     · exact ⟨{ w with alive := false }, by simp only [List.mem_append]; exact Or.inl hkill, rfl, rfl, rfl⟩
 
 /-- ... and watchers of OTHER settings on the same file are left alone (the defect repaired in 6ef1ffe) -/
-theorem other_settings_keep_their_watcher (st : State) (s : Settings) (w : Watcher) (hw : w ∈ st.watchers)
+theorem other_settings_keep_their_watcher (st : State) (s : Key) (w : Watcher) (hw : w ∈ st.watchers)
     (hid : w.id ≠ (s, s.caFile)) : w ∈ (watchFile st s).1.watchers := by
   have hkeep : w ∈ st.watchers.map (fun w => if w.id = (s, s.caFile) then { w with alive := false } else w) := by
     apply List.mem_map.mpr
@@ -115,7 +116,7 @@ theorem other_settings_keep_their_watcher (st : State) (s : Settings) (w : Watch
 
 /-- ROTATION REACHES THE POOL ENTRY: the callback replaces the extra roots of exactly that entry (and only when the new
     content parses) -/
-theorem updateCA_entry (o : Oracle) (pool : List (Settings × Trust)) (s : Settings) (t : Trust) (data : Str)
+theorem updateCA_entry (o : Oracle) (pool : List (Key × Trust)) (s : Key) (t : Trust) (data : Str)
     (h : lookupPool pool s = some t) (hp : o.pemOk data = true) :
     lookupPool (updateCA o pool s data) s = some { t with extra := some data } := by
   unfold updateCA lookupPool at *
@@ -130,7 +131,7 @@ theorem updateCA_entry (o : Oracle) (pool : List (Settings × Trust)) (s : Setti
       simp only [List.map_cons, he, if_false, List.find?_cons, decide_false]
       exact ih h
 
-theorem updateCA_other (o : Oracle) (pool : List (Settings × Trust)) (s s' : Settings) (data : Str) (hne : s' ≠ s) :
+theorem updateCA_other (o : Oracle) (pool : List (Key × Trust)) (s s' : Key) (data : Str) (hne : s' ≠ s) :
     lookupPool (updateCA o pool s data) s' = lookupPool pool s' := by
   unfold updateCA lookupPool
   split
@@ -150,7 +151,7 @@ theorem updateCA_other (o : Oracle) (pool : List (Settings × Trust)) (s s' : Se
         · exact ih
   · rfl
 
-theorem updateCA_unparsable (o : Oracle) (pool : List (Settings × Trust)) (s : Settings) (data : Str) (hp : o.pemOk data = false) :
+theorem updateCA_unparsable (o : Oracle) (pool : List (Key × Trust)) (s : Key) (data : Str) (hp : o.pemOk data = false) :
     updateCA o pool s data = pool := by simp [updateCA, hp]
 
 end Tls
